@@ -385,7 +385,12 @@ func (p *Parser) printStatement() (StatementPrint, error) {
 	startToken := *p.previous
 
 	args := make([]Expr, 0)
-	for !p.atStatementEnd() {
+	for {
+		if p.atStatementEnd() {
+			// that may have consumed a ';', so remember the statement is over
+			p.didEndStatement = true
+			break
+		}
 		expr, err := p.expression()
 		if err != nil {
 			return StatementPrint{}, err
